@@ -40,6 +40,9 @@ META = dict(
                  "convention infers N from the largest index otherwise)"],
 )
 
+META["rule"] += (
+    " " + 'Added after the second round of seeded changes: the same links listed in shuffled order and (undirected) either orientation through the edge-list constructor and FromIGraph; copies, copies of copies and save/Load round trips of such igraph-built objects, and copies of loaded objects.')
+
 FORMATS = ["graphml", "graphmlz", "pickle", "gml"]
 
 
